@@ -4,12 +4,13 @@
 (* their values explicitly.                                                *)
 EXTENDS Integers, Sequences, FiniteSets, TLC
 
-RECURSIVE JJoinFrom(_, _, _)
-JJoinFrom(s, i, sep) ==
-   IF i > Len(s) THEN ""
-   ELSE IF i = Len(s) THEN s[i]
-   ELSE s[i] \o sep \o JJoinFrom(s, i+1, sep)
-JJoin(s, sep) == JJoinFrom(s, 1, sep)
+(* balanced, so that the recursion depth is logarithmic (a linear join overflows the Java stack near 700 items) *)
+RECURSIVE JJoinR(_, _, _, _)
+JJoinR(s, lo, hi, sep) ==
+   IF lo > hi THEN ""
+   ELSE IF lo = hi THEN s[lo]
+   ELSE LET mid == (lo + hi) \div 2 IN JJoinR(s, lo, mid, sep) \o sep \o JJoinR(s, mid + 1, hi, sep)
+JJoin(s, sep) == JJoinR(s, 1, Len(s), sep)
 
 JInt(n)  == ToString(n)
 JStr(s)  == "\"" \o s \o "\""
